@@ -16,6 +16,7 @@ static inline ref::Written emit(const Table& t, const ref::Layout& L, const std:
         try { peercmp::compare_parsed_with_table(P, t, "peer-selfcheck"); }
         catch (sim::Violation& v) { sim::harness_bug("peer writer/reader self-check mismatch: " + v.clause + ": " + v.detail); }
     }
+    if (const char* dd = getenv("SIM_DUMP_DIR")) { std::string fn = std::string(dd) + "/peer.parquet"; FILE* f = fopen(fn.c_str(), "wb"); if (f) { fwrite(W.bytes.data(), 1, W.bytes.size(), f); fclose(f); } }
     sim::disk_put(path, std::vector<uint8_t>(W.bytes.begin(), W.bytes.end()));
     return W;
 }
